@@ -6,7 +6,7 @@ def input_class(F):
     if F.get("clean"):
         return "clean"
     cls = []
-    if (F.get("contra") or F.get("contra_ev")) and F.get("rec"):
+    if F.get("contra_cyc"):
         cls.append("contra_rec")
     if F.get("neg_cyclic_in_cycle"):
         cls.append("neg_cyclic_in_cycle")
